@@ -553,7 +553,19 @@ func bundleKeys(ctx context.Context, b *Bundle, size uint32, db kvStore, logger 
 		// NOTE: this section issues a GET on remote store for this key and has been seen as the
 		// limiting factor on the throughput of the index building job.
 		// By skipping it on already existing root keys, we shall call this about 2.5x less often.
-		leaves, err := cafs.LeavesForHash(b.BlobStore(), root, size, "")
+		var leaves []cafs.Key
+		err = backoff.Retry(func() error {
+			var e error
+			leaves, e = cafs.LeavesForHash(b.BlobStore(), root, size, "")
+			if e != nil && !errors.Is(e, status.ErrStorageAPI) {
+				// a missing or corrupted root key won't get any better: only storage API failures are worth a retry
+				return backoff.Permanent(e)
+			}
+
+			return e
+		},
+			backoff.WithContext(defaultBackoff(), ctx),
+		)
 		if err != nil {
 			// The root key is somehow corrupted. This might happen with objects created with previous versions of datamon:
 			// ignore the leaves and just return the root key.
